@@ -125,7 +125,11 @@ func (s *SenderInterceptor) BindRemoteStream(
 			sequenceNumber: header.SequenceNumber,
 			ecn:            0, // ECN is not supported (yet).
 		}
-		s.packetChan <- p
+		select {
+		case s.packetChan <- p:
+		case <-s.close:
+			// the report loop is gone: pass the packet through instead of blocking the reader forever
+		}
 
 		return i, attr, nil
 	})
